@@ -1,8 +1,8 @@
 """
 C17 — reaction arithmetic agrees with applying the reactions and spares its operands.
 
-Adapter for thermosteam/reaction/_reaction.py (Reaction / ReactionItem / ParallelReaction):
-drives `+ - += -= * / *= /= neg copy backwards basis-setter X-setter reduce` on real
+Adapter for thermosteam/reaction/_reaction.py (Reaction / ReactionItem / ParallelReaction / SeriesReaction):
+drives `+ - += -= * / *= /= neg copy backwards basis-setter X-setter reduce set.copy set[i:j] reset_chemicals` on real
 objects, dumps every object's fields (stoichiometry contents, reactant, X, basis, phases)
 and identity classes of the arrays they hold after every operation, and evaluates the
 property on the real objects only:
@@ -12,7 +12,8 @@ property on the real objects only:
   * in-place form == binary form,
   * operands (every pre-existing object) unchanged by non-in-place operations,
   * result is a new object that shares no array with any pre-existing object,
-  * ReactionItem X write <-> set X read.
+  * ReactionItem / slice X write <-> set X read (every object that reads the written cell reads the value),
+  * set.copy is independent of the original; reset_chemicals preserves the action on streams of either package.
 
 The Lean model is lean/ThermoVerif/Model/ReactionAlgebra.lean (driver Driver/C17.lean).
 """
@@ -23,9 +24,11 @@ from harness.core import Case, ImplResult, frac, close
 
 PID = 'C17'
 LEAN_MODULES = ['ThermoVerif.Props.C17']
-RULE = ('histories over 2-5 Reaction objects (mostly sharing a reactant; mol/wt basis; phase-less or tagged with '
+RULE = ('histories over 2-5 Reaction objects and the parallel/series sets, items, slices and copies built from them '
+        '(mostly sharing a reactant; mol/wt basis; phase-less or tagged with '
         "phases 'gls'; dyadic stoichiometries and conversions) built through the real constructor, followed by "
-        'random arithmetic / in-place / copy / backwards / basis / set / item / reduce / apply operations generated '
+        'random arithmetic / in-place / copy / backwards / basis / set / item / slice / set-copy / reduce / reset_chemicals / '
+        'apply operations (10% of the cases: a Reaction against items of a set on the other basis) generated '
         'adaptively on the real objects; a case is non-trivial when at least one arithmetic operation succeeded; '
         'distinct = distinct op sequences')
 ASSUMPTIONS = [
@@ -33,12 +36,13 @@ ASSUMPTIONS = [
     'float arithmetic is compared exactly while every observed value has <= 26 significant bits (dyadic inputs), '
     'else with rtol 1e-9 / atol 1e-12',
     'iteration order of set(self._reactant_index) in ParallelReaction.reduce is an external parameter recorded by the adapter',
-    'one property package (8 chemicals); reset_chemicals, SeriesReaction, set slicing and ReactionSet.copy are not modelled',
+    'three property packages (home: 8 chemicals; two alternatives, one lacking two chemicals and having an extra one); '
+    'reset_chemicals of items/sets, stepped or negative slices, X_net, product_yield are not modelled',
     'the agreement laws are evaluated for operands normalised on their reactant (true of everything the constructor '
     'and the operations return); a left operand with empty stoichiometry and X != 0 (Reaction(\'\', ...)) is outside them',
     'products of obj(feed) are observed through __call__ with the default feasibility check; when it refuses a negative '
     'flow, as feed + conversion(feed)',
-    'the model is written to the repaired behaviour of the defects in fixes_proposed/C17-1..5',
+    'the model is written to the repaired behaviour of the defects in fixes_proposed/C17-1..6',
 ]
 TRUSTED = ['Lean 4.33 kernel', 'correspondence harness harness/props/c17.py + Driver/C17.lean',
            'generator reach (see histogram)', 'field-vs-float gap (theorems over ordered fields)']
@@ -48,10 +52,17 @@ IDS = ['Water', 'Ethanol', 'Methanol', 'Glucose', 'CO2', 'O2', 'H2', 'AceticAcid
 N = len(IDS)
 PHASES = {0: '', 2: 'gl', 3: 'gls'}
 
+# alternative property packages for `reset_chemicals`: global chemical ids (home ids 0..7, N2 = 8)
+ALT_IDS = [[3, 5, 4, 1, 0, 7, 8],            # no Methanol, no H2, with N2
+           [7, 6, 5, 4, 3, 2, 1, 0]]         # the home chemicals in reverse order
+GLOBAL_IDS = IDS + ['N2']
+
 tmo = None
 rxnmod = None
 CHEMS = None
 MW = None
+PKGS = []
+THERMOS = []
 
 
 def setup():
@@ -62,6 +73,11 @@ def setup():
     CHEMS = tmo.Chemicals(IDS, cache=True)
     tmo.settings.set_thermo(CHEMS)
     MW = [float(x) for x in CHEMS.MW]
+    PKGS.clear(); THERMOS.clear()
+    PKGS.append(CHEMS); THERMOS.append(tmo.settings.get_thermo())
+    for ids in ALT_IDS:
+        c = tmo.Chemicals([GLOBAL_IDS[g] for g in ids], cache=True)
+        PKGS.append(c); THERMOS.append(tmo.Thermo(c))
     import thermosteam.reaction as rxnmod_
     rxnmod = rxnmod_
 
@@ -73,6 +89,15 @@ def budget(tier):
 
 def pkg_line():
     return 'pkg %d %s' % (N, ' '.join(frac(x) for x in MW))
+
+
+def alt_lines():
+    return ['alt %s %s' % (','.join(map(str, ids)), ','.join(frac(float(x)) for x in PKGS[k + 1].MW))
+            for k, ids in enumerate(ALT_IDS)]
+
+
+def prelude():
+    return [pkg_line()] + alt_lines()
 
 
 # --------------------------------------------------------------------------
@@ -114,13 +139,13 @@ class BadCase(Exception):
 LEGIT_ERRORS = [
     (ValueError, 'must be the same'), (ValueError, 'must pass reactant'), (ValueError, 'basis must be'),
     (ValueError, 'all reactions must'), (ZeroDivisionError, ''), (RuntimeError, 'does not participate'),
-    (TypeError, 'cannot change basis'), (IndexError, ''),
+    (TypeError, 'cannot change basis'), (TypeError, 'cannot reduce'), (IndexError, ''), ('UndefinedChemicalAlias', ''),
 ]
 
 
 def legit_error(e):
     for cls, sub in LEGIT_ERRORS:
-        if type(e) is cls and sub in str(e): return True
+        if (type(e).__name__ == cls if isinstance(cls, str) else type(e) is cls) and sub in str(e): return True
     return False
 
 
@@ -135,6 +160,20 @@ def raised_in(e):
 
 def is_item(o): return isinstance(o, tmo.ReactionItem)
 def is_rxn(o): return isinstance(o, tmo.Reaction)
+def is_set(o): return isinstance(o, tmo.ReactionSet)
+
+
+def xbase(arr):
+    """the numpy array that owns the memory of a set's `_X` (a slice of a set holds a view)"""
+    while getattr(arr, 'base', None) is not None: arr = arr.base
+    return arr
+
+
+def xoff(arr):
+    """position of the first cell of `_X` inside the array that owns it (0 for an empty window: unobservable)"""
+    b = xbase(arr)
+    if arr.size == 0: return 0
+    return (arr.__array_interface__['data'][0] - b.__array_interface__['data'][0]) // arr.itemsize
 
 
 def nph(o): return len(o._phases)
@@ -144,8 +183,19 @@ def arr_vals(a):
     return [float(x) for x in a.to_array().flatten()]
 
 
-def ridx_of(ri, ph):
-    if ph: return int(ri[0]) * N + int(ri[1])
+def nch(o):
+    """number of chemicals of the package an object is defined over"""
+    return len(o.chemicals.IDs)
+
+
+def pkg_no(o):
+    for k, c in enumerate(PKGS):
+        if o.chemicals is c: return k
+    return 99
+
+
+def ridx_of(ri, ph, o=None):
+    if ph: return int(ri[0]) * (nch(o) if o is not None else N) + int(ri[1])
     return int(ri)
 
 
@@ -181,7 +231,7 @@ class Universe:
 
     def rset(self, t):
         o = self.ref(t)
-        if not isinstance(o, tmo.ParallelReaction): raise BadCase(t + ' is not a set')
+        if not is_set(o): raise BadCase(t + ' is not a set')
         return o
 
     def index_of(self, o):
@@ -194,12 +244,12 @@ class Universe:
         """the observable fields of one object (what the property talks about)"""
         ph = nph(o)
         b = 'm' if o._basis == 'mol' else ('w' if o._basis == 'wt' else '?')
-        if isinstance(o, tmo.ParallelReaction):
-            return dict(kind='P', v=[arr_vals(r) for r in o._stoichiometry],
-                        ri=[ridx_of(x, ph) for x in o._reactant_index],
-                        X=[float(x) for x in o._X], b=b, ph=ph)
+        if is_set(o):
+            return dict(kind='S' if isinstance(o, tmo.SeriesReaction) else 'P', v=[arr_vals(r) for r in o._stoichiometry],
+                        ri=[ridx_of(x, ph, o) for x in o._reactant_index],
+                        X=[float(x) for x in o._X], b=b, ph=ph, pk=pkg_no(o))
         return dict(kind='I' if is_item(o) else 'R', v=[arr_vals(o._stoichiometry)],
-                    ri=[ridx_of(o._reactant_index, ph)], X=[float(o.X)], b=b, ph=ph)
+                    ri=[ridx_of(o._reactant_index, ph, o)], X=[float(o.X)], b=b, ph=ph, pk=pkg_no(o))
 
     def snapshot(self):
         return [self.fields(o) for o in self.objs]
@@ -207,14 +257,14 @@ class Universe:
     def cells(self, o):
         """identity tokens of the mutable cells an object reads its value from"""
         toks = set()
-        if isinstance(o, tmo.ParallelReaction):
+        if is_set(o):
             for r in o._stoichiometry: toks |= array_tokens(r)
-            for i in range(len(o._X)): toks.add(('x', id(o._X), i))
-            toks.add(('xa', id(o._X)))
+            b, off = xbase(o._X), xoff(o._X)
+            for i in range(len(o._X)): toks.add(('x', id(b), off + i))
         else:
             toks |= array_tokens(o._stoichiometry)
             if is_item(o):
-                toks.add(('x', id(o._X), int(o._index)))
+                toks.add(('x', id(xbase(o._X)), xoff(o._X) + int(o._index)))
             else:
                 toks.add(('own', id(o)))
         return toks
@@ -233,20 +283,21 @@ class Universe:
                     if not short(x): allshort = False
             for x in f['X']:
                 if not short(x): allshort = False
-            if f['kind'] == 'P':
+            if f['kind'] in 'PS':
                 cs = ['#%d' % cls(seen_a, r) for r in o._stoichiometry]
-                cx = cls(seen_x, o._X)
+                cx = cls(seen_x, xbase(o._X))
                 vs = ' '.join('v%d=%s' % (i, sparse_str(row)) for i, row in enumerate(f['v']))
-                parts.append('r%d:P rows=%s xa=#x%d ri=%s X=%s b=%s ph=%d %s' % (
-                    k, ','.join(cs), cx, ','.join(str(i) for i in f['ri']), dense_str(f['X']), f['b'], f['ph'], vs))
+                parts.append('r%d:%s rows=%s xa=#x%d+%d ri=%s X=%s b=%s ph=%d pk=%d %s' % (
+                    k, f['kind'], ','.join(cs), cx, xoff(o._X), ','.join(str(i) for i in f['ri']), dense_str(f['X']),
+                    f['b'], f['ph'], f['pk'], vs))
             else:
                 c = cls(seen_a, o._stoichiometry)
                 if f['kind'] == 'I':
-                    xs = '#x%d.%d' % (cls(seen_x, o._X), int(o._index))
+                    xs = '#x%d.%d' % (cls(seen_x, xbase(o._X)), xoff(o._X) + int(o._index))
                 else:
                     xs = 'own'
-                parts.append('r%d:%s nu=#%d ri=%d X=%s xs=%s b=%s ph=%d v=%s' % (
-                    k, f['kind'], c, f['ri'][0], frac(f['X'][0]), xs, f['b'], f['ph'], sparse_str(f['v'][0])))
+                parts.append('r%d:%s nu=#%d ri=%d X=%s xs=%s b=%s ph=%d pk=%d v=%s' % (
+                    k, f['kind'], c, f['ri'][0], frac(f['X'][0]), xs, f['b'], f['ph'], f['pk'], sparse_str(f['v'][0])))
         return ' | '.join(parts), allshort
 
     # -- applying an object to a feed -------------------------------------------------
@@ -256,18 +307,21 @@ class Universe:
         import numpy as np
         ph = nph(o)
         rows = ph or 1
-        if len(feed) != rows * N: raise BadCase('feed length')
+        n_o = nch(o)
+        th = THERMOS[pkg_no(o)]
+        mw_o = np.array([float(x) for x in o.chemicals.MW])
+        if len(feed) != rows * n_o: raise BadCase('feed length')
         def fresh():
             arr = np.array(feed, float)
-            return arr.reshape(rows, N) if ph else arr
+            return arr.reshape(rows, n_o) if ph else arr
         def dense(x):
             return np.asarray(x.to_array() if hasattr(x, 'to_array') else x, float)
         def stream():
             if ph:
-                s = tmo.MultiStream(None, phases=PHASES[ph])
+                s = tmo.MultiStream(None, phases=PHASES[ph], thermo=th)
                 s.imol.data[:] = fresh()
             else:
-                s = tmo.Stream(None, flow=fresh())
+                s = tmo.Stream(None, flow=fresh(), thermo=th)
             return s
         try:
             if mode == 'arr':
@@ -280,14 +334,58 @@ class Universe:
         except tmo.exceptions.InfeasibleRegion:
             pass
         total = fresh()
-        for it in (list(o) if isinstance(o, tmo.ParallelReaction) else [o]):
-            if mode == 'arr':
-                conv = dense(it.conversion(fresh()))
+        ser = isinstance(o, tmo.SeriesReaction)
+        def at(arr2):
+            if mode == 'arr': return arr2.copy()
+            if ph:
+                s2 = tmo.MultiStream(None, phases=PHASES[ph], thermo=th); s2.imol.data[:] = arr2
             else:
-                conv = dense(it.conversion(stream()))
-                if it._basis == 'wt': conv = conv / np.array(MW)
+                s2 = tmo.Stream(None, flow=arr2.copy(), thermo=th)
+            return s2
+        for it in (list(o) if is_set(o) else [o]):
+            conv = dense(it.conversion(at(total) if ser else (fresh() if mode == 'arr' else stream())))
+            if mode != 'arr' and it._basis == 'wt': conv = conv / mw_o
             total = total + conv.reshape(total.shape)
         return [float(x) for x in total.flatten()]
+
+    def apply_pkg(self, o, p, feed):
+        """molar flows of a stream over package `p` after `o(stream)` (o: a plain reaction over any package)"""
+        import numpy as np
+        ph = nph(o)
+        rows = ph or 1
+        n_p = len(PKGS[p].IDs)
+        if len(feed) != rows * n_p: raise BadCase('feed length')
+        arr = np.array(feed, float)
+        if ph: arr = arr.reshape(rows, n_p)
+        def stream():
+            if ph:
+                s = tmo.MultiStream(None, phases=PHASES[ph], thermo=THERMOS[p]); s.imol.data[:] = arr
+            else:
+                s = tmo.Stream(None, flow=arr.copy(), thermo=THERMOS[p])
+            return s
+        try:
+            s = stream()
+            o(s)
+            return [float(x) for x in s.imol.data.to_array().flatten()]
+        except tmo.exceptions.InfeasibleRegion:
+            pass
+        # the same quantity without the feasibility check: flows re-indexed onto the reaction's package,
+        # conversion added there, re-indexed back (with the errors the indexer raises for missing chemicals)
+        A, B = o.chemicals, PKGS[p]
+        a2 = arr.reshape(rows, n_p)
+        nA = np.zeros((rows, len(A.IDs)))
+        for r in range(rows):
+            for k, x in enumerate(a2[r]):
+                if x: nA[r, A.index(B.IDs[k])] = x
+        conv = o.conversion(stream())
+        conv = np.asarray(conv.to_array() if hasattr(conv, 'to_array') else conv, float).reshape(rows, len(A.IDs))
+        if o._basis == 'wt': conv = conv / np.array([float(x) for x in A.MW])
+        mA = nA + conv
+        out = np.zeros((rows, n_p))
+        for r in range(rows):
+            for j, x in enumerate(mA[r]):
+                if x: out[r, B.index(A.IDs[j])] = x
+        return [float(x) for x in out.flatten()]
 
     # -- constructors ------------------------------------------------------------
     def make_reaction(self, ph, basis, c, X, entries):
@@ -339,7 +437,7 @@ class Universe:
         if op == 'idiv': return 'ret', operator.itruediv(self.rxn(t[1]), num(t[2])), line
         if op == 'back':
             kw = {}
-            if t[2] != '-': kw['reactant'] = IDS[int(t[2])]
+            if t[2] != '-': kw['reactant'] = self.rxn(t[1]).chemicals.IDs[int(t[2])]
             if t[3] != '-': kw['X'] = num(t[3])
             return 'ret', self.rxn(t[1]).backwards(**kw), line
         if op == 'setbasis':
@@ -352,6 +450,16 @@ class Universe:
             return 'ret', o, line
         if op == 'mkset':
             return 'ret', tmo.ParallelReaction([self.rxn(x) for x in t[1].split(',')]), line
+        if op == 'mkseries':
+            return 'ret', tmo.SeriesReaction([self.rxn(x) for x in t[1].split(',')]), line
+        if op == 'setcopy':
+            o = self.rset(t[1])
+            return 'ret', (o.copy() if t[2] == '-' else o.copy(barg[t[2]])), line
+        if op == 'slice':
+            o = self.rset(t[1])
+            r = o[int(t[2]):int(t[3])]
+            if not is_set(r): raise BadCase('slice did not give a set')
+            return 'ret', r, line
         if op == 'item':
             s = self.rset(t[1]); i = int(t[2])
             if i >= len(s._X): raise IndexError('item index')
@@ -364,13 +472,22 @@ class Universe:
         if op == 'reduce':
             s = self.rset(t[1])
             ph = nph(s)
-            order = [ridx_of(k, ph) for k in set(s._reactant_index)]     # the external parameter, as the code obtains it
+            order = [ridx_of(k, ph, s) for k in set(s._reactant_index)]     # the external parameter, as the code obtains it
             mline = '%s %s %s' % (t[0], t[1], ','.join(map(str, order)))
             self._pending_model_line = mline
             r = s.reduce()
-            got = [ridx_of(k, nph(r)) for k in r._reactant_index]
+            got = [ridx_of(k, nph(r), r) for k in r._reactant_index]
             if got != order: raise BadCase('recorded reduce order %r differs from observed %r' % (order, got))
             return 'ret', r, mline
+        if op == 'reset':
+            o = self.rxn(t[1])
+            if is_item(o): raise BadCase('reset_chemicals of an item is not modelled')
+            o.reset_chemicals(PKGS[int(t[2])])
+            return 'ret', o, line
+        if op == 'applys2':
+            o = self.rxn(t[1])
+            feed = [num(x) for x in t[3].split(',')]
+            return 'out', [self.apply_pkg(o, int(t[2]), feed)], line
         if op in ('apply', 'applys'):
             o = self.ref(t[1])
             feed = [num(x) for x in t[2].split(',')]
@@ -385,8 +502,8 @@ class Universe:
 
 
 INPLACE = {'iadd': 'add', 'isub': 'sub', 'imul': 'mul', 'idiv': 'div'}
-FRESH_RESULT = ('copy', 'add', 'radd', 'sub', 'mul', 'rmul', 'div', 'neg', 'back', 'reduce')
-NON_INPLACE = FRESH_RESULT + ('new', 'empty', 'mkset', 'item', 'apply', 'applys', 'subcancel')
+FRESH_RESULT = ('copy', 'add', 'radd', 'sub', 'mul', 'rmul', 'div', 'neg', 'back', 'reduce', 'setcopy')
+NON_INPLACE = FRESH_RESULT + ('new', 'empty', 'mkset', 'mkseries', 'slice', 'item', 'apply', 'applys', 'applys2', 'subcancel')
 
 
 def fields_diff(f, g, exact=True):
@@ -395,6 +512,7 @@ def fields_diff(f, g, exact=True):
     if f['ri'] != g['ri']: return 'reactant'
     if f['b'] != g['b']: return 'basis'
     if f['ph'] != g['ph']: return 'phases'
+    if f.get('pk') != g.get('pk'): return 'chemicals'
     if len(f['X']) != len(g['X']) or any(not (x == y) for x, y in zip(f['X'], g['X'])): return 'X'
     if len(f['v']) != len(g['v']): return 'stoichiometry'
     for r, s in zip(f['v'], g['v']):
@@ -407,10 +525,10 @@ def vec_close(l, r, feed):
     return all(abs(x - y) <= 1e-9 * scale for x, y in zip(l, r)) and len(l) == len(r)
 
 
-def law_feeds(line, i, ph, hot):
+def law_feeds(line, i, ph, hot, n=None):
     """two deterministic feeds for the agreement laws of one line (`hot` = reactant index gets material)"""
     rng = random.Random(zlib.crc32(line.encode()) * 31 + i)
-    L = (ph or 1) * N
+    L = (ph or 1) * (n or N)
     feeds = []
     for kind in ('pos', 'any'):
         f = [rng.randrange(0, 257) / 4.0 for _ in range(L)]
@@ -443,6 +561,15 @@ class Oracle:
         self.cells_before = [U.cells(o) for o in U.objs]
         self.normal_before = all(normalised(o) or not o._stoichiometry.any() for o in U.objs if is_rxn(o))
         self.ref = None
+        self.reset_probe = None
+        if self.op == 'reset':
+            try:
+                o = U.rxn(self.t[1])
+                self.reset_probe = self.probe_streams(o, pkg_no(o), int(self.t[2]))
+            except BadCase:
+                raise
+            except Exception:
+                self.reset_probe = None
         if self.op in INPLACE:
             # the binary form on the same operands, computed first (it must not change them either)
             try:
@@ -464,6 +591,29 @@ class Oracle:
             if d: self.add(INPLACE[self.op] + ':operand-mutated:' + d[1],
                            'computing the binary form for `%s` changed %s of r%d' % (line, d[1], d[0]))
             self.before = U.snapshot()
+
+    def probe_streams(self, o, pa, pb):
+        """what `o` does to one stream of package `pa` and one of package `pb` (material only in chemicals that
+        both packages have): list of (package, feed, output or None)"""
+        rng = random.Random(zlib.crc32(self.line.encode()) * 17 + self.i)
+        ph = nph(o)
+        rows = ph or 1
+        common = set(PKGS[pa].IDs) & set(PKGS[pb].IDs)
+        res = []
+        for p in (pa, pb):
+            ids = PKGS[p].IDs
+            feed = []
+            for r in range(rows):
+                for k, name in enumerate(ids):
+                    feed.append(rng.randrange(1, 257) / 4.0 if name in common and rng.random() < 0.8 else 0.0)
+            try:
+                out = self.U.apply_pkg(o, p, feed)
+            except BadCase:
+                raise
+            except Exception:
+                out = None
+            res.append((p, feed, out))
+        return res
 
     def add(self, sig, what):
         self.fail.append({'signature': sig, 'op_index': self.i, 'what': what})
@@ -519,10 +669,10 @@ class Oracle:
                         self.add('%s:result-shares-array' % op,
                                  'the result of `%s` shares a stoichiometry or X array with r%d' % (self.line, k))
                         break
-            if op != 'reduce' and (is_item(res) or not is_rxn(res)) and not any(o is res for o in U.objs[:self.n_before]):
+            if op not in ('reduce', 'setcopy') and (is_item(res) or not is_rxn(res)) and not any(o is res for o in U.objs[:self.n_before]):
                 self.add('%s:result-not-a-reaction' % op, 'the result of `%s` is a %s' % (self.line, type(res).__name__))
         # ---- hypothesis monitor: what the operations return stays normalised on its reactant (or empty) ----
-        if kind == 'ret' and is_rxn(res) and op not in ('item', 'setbasis', 'setx', 'empty'):
+        if kind == 'ret' and is_rxn(res) and op not in ('item', 'setbasis', 'setx', 'empty'):  # (sets are not Reaction instances)
             if self.normal_before and not normalised(res) and res._stoichiometry.any():
                 self.add('%s:result-not-normalised' % op,
                          'after `%s` the reactant coefficient of the result is %r, not -1'
@@ -538,21 +688,64 @@ class Oracle:
                 if d: self.add('%s:differs-from-binary' % op,
                                'after `%s` the %s of the left operand differs from that of the binary form'
                                % (self.line, d))
-        # ---- item <-> set -----------------------------------------------------------------------------
-        if op in ('setx', 'imul', 'idiv', 'iadd', 'isub') and is_item(res):
-            ia = int(t[1][1:])
-            if ia in U.parent:
-                ks, row = U.parent[ia]
-                if not (float(U.objs[ks]._X[row]) == float(res.X)):
-                    self.add('%s:item-write-not-seen-by-set' % op,
-                             'after `%s` the set r%d reads X[%d]=%r but the item reads %r'
-                             % (self.line, ks, row, float(U.objs[ks]._X[row]), float(res.X)))
-        if op == 'setsx':
-            ks, row, x = int(t[1][1:]), int(t[2]), float(Fraction(t[3]))
-            for ia, (ps, pr) in U.parent.items():
-                if ps == ks and pr == row and not (float(U.objs[ia].X) == x):
-                    self.add('setsx:set-write-not-seen-by-item',
-                             'after `%s` the item r%d reads X=%r' % (self.line, ia, float(U.objs[ia].X)))
+        # ---- item <-> set (and slices): everything that reads the written cell reads the written value --------
+        if op in ('setx', 'imul', 'idiv', 'iadd', 'isub', 'setsx'):
+            if op == 'setsx':
+                o = U.objs[int(t[1][1:])]
+                cellk = ('x', id(xbase(o._X)), xoff(o._X) + int(t[2]))
+                val = float(o._X[int(t[2])])
+                if not (val == float(Fraction(t[3]))):
+                    self.add('setsx:write-lost', 'after `%s` the set reads %r' % (self.line, val))
+            elif is_item(res):
+                cellk = ('x', id(xbase(res._X)), xoff(res._X) + int(res._index))
+                val = float(res.X)
+            else:
+                cellk = None
+            if cellk is not None:
+                for k2, o2 in enumerate(U.objs):
+                    if is_set(o2):
+                        b2, off2 = id(xbase(o2._X)), xoff(o2._X)
+                        if b2 == cellk[1] and off2 <= cellk[2] < off2 + len(o2._X):
+                            got = float(o2._X[cellk[2] - off2])
+                            if not (got == val):
+                                self.add('%s:%s' % (op, 'set-write-not-seen-by-set' if op == 'setsx' else 'item-write-not-seen-by-set'),
+                                         'after `%s` the set r%d reads %r where the writer reads %r' % (self.line, k2, got, val))
+                    elif is_item(o2) and ('x', id(xbase(o2._X)), xoff(o2._X) + int(o2._index)) == cellk:
+                        if not (float(o2.X) == val):
+                            self.add('%s:%s' % (op, 'set-write-not-seen-by-item' if op == 'setsx' else 'item-write-not-seen-by-item'),
+                                     'after `%s` the item r%d reads X=%r where the writer reads %r' % (self.line, k2, float(o2.X), val))
+        # ---- an item / a slice is created sharing the set's conversion cells and row arrays ------------------
+        if op in ('item', 'slice') and kind == 'ret':
+            import numpy as np
+            S = U.objs[int(t[1][1:])]
+            if op == 'item':
+                i = int(t[2])
+                ok = (np.shares_memory(res._X, S._X) and res._stoichiometry is S._stoichiometry[i]
+                      and xoff(res._X) + int(res._index) == xoff(S._X) + i and xbase(res._X) is xbase(S._X))
+            else:
+                i, j = int(t[2]), int(t[3])
+                rows = S._stoichiometry[i:j]
+                ok = (len(res._stoichiometry) == len(rows) and all(a is b for a, b in zip(res._stoichiometry, rows))
+                      and (len(rows) == 0 or (xbase(res._X) is xbase(S._X) and xoff(res._X) == xoff(S._X) + i)))
+            if not ok:
+                self.add('%s:does-not-share-with-set' % op,
+                         'the result of `%s` does not refer to the conversion cells / row arrays of r%s' % (self.line, t[1][1:]))
+        # ---- reset_chemicals preserves the action on streams of either package ------------------------------
+        if op == 'reset' and self.reset_probe is not None:
+            for p, feed, before in self.reset_probe:
+                if before is None: continue
+                try:
+                    after = U.apply_pkg(res, p, feed)
+                except BadCase:
+                    raise
+                except Exception as e:
+                    self.add('reset:acts-differently', 'after `%s` calling the reaction on a stream of package %d raises %s '
+                             'where it returned before' % (self.line, p, type(e).__name__))
+                    continue
+                if not vec_close(before, after, feed):
+                    worst = max(range(len(before)), key=lambda q: abs(before[q] - after[q]))
+                    self.add('reset:acts-differently', 'after `%s` a stream of package %d gets %r for entry %d where it got %r before'
+                             % (self.line, p, after[worst], worst, before[worst]))
         # ---- agreement laws on feeds -----------------------------------------------------------------------
         try:
             self.laws(kind, res)
@@ -591,6 +784,8 @@ class Oracle:
             self.linear_law(res, [(U.rxn(t[1]), -1.0)])
         elif op == 'copy':
             self.linear_law(res, [(U.rxn(t[1]), 1.0)])
+        elif op == 'setcopy':
+            self.linear_law(res, [(U.rset(t[1]), 1.0)])
         elif op == 'reduce':
             # members whose reactant does not take part (empty stoichiometry) are outside the law
             if all(normalised(m) for m in U.rset(t[1])):
@@ -605,9 +800,10 @@ class Oracle:
         mode = 'arr' if len({o._basis for o in objs}) == 1 else 'str'
         hot = []
         for o in objs:
-            if isinstance(o, tmo.ParallelReaction): hot += [ridx_of(x, ph) for x in o._reactant_index]
-            else: hot.append(ridx_of(o._reactant_index, ph))
-        for j, feed in enumerate(law_feeds(self.line, self.i, ph, hot)):
+            if is_set(o): hot += [ridx_of(x, ph, o) for x in o._reactant_index]
+            else: hot.append(ridx_of(o._reactant_index, ph, o))
+        if any(o.chemicals is not res.chemicals for o in objs): return
+        for j, feed in enumerate(law_feeds(self.line, self.i, ph, hot, nch(res))):
             m = mode
             if m == 'arr' and j == 0 and (zlib.crc32(self.line.encode()) & 3) == 0: m = 'str'
             if m == 'str' and j == 1: continue       # streams only take the non-negative feed
@@ -629,11 +825,11 @@ def uses_MW(U, t):
     try:
         op = t[0]
         lab = {'m': 'mol', 'w': 'wt'}
-        if op in ('copy', 'setbasis'):
+        if op in ('copy', 'setbasis', 'setcopy'):
             return t[2] in lab and lab[t[2]] != U.ref(t[1])._basis
         if op in ('add', 'radd', 'sub', 'iadd', 'isub', 'subcancel'):
             return t[2].startswith('r') and U.ref(t[1])._basis != U.ref(t[2])._basis
-        if op == 'applys':
+        if op in ('applys', 'applys2'):
             return U.ref(t[1])._basis == 'wt'
     except Exception:
         return True
@@ -650,6 +846,10 @@ def run_ops(ops):
         if t[0] == 'pkg':
             if line != pkg_line(): raise BadCase('package line does not describe the package of this run')
             U.ready = True
+            outs.append('E|ok'); model_in.append(line)
+            continue
+        if t[0] == 'alt':
+            if line not in alt_lines(): raise BadCase('alt line does not describe a package of this run')
             outs.append('E|ok'); model_in.append(line)
             continue
         if not U.ready: raise BadCase('no pkg line')
@@ -675,7 +875,7 @@ def run_ops(ops):
                 else:
                     status = 'ret=r%d' % k
                 if t[0] in ('add', 'radd', 'sub', 'iadd', 'isub', 'mul', 'rmul', 'div', 'neg', 'imul', 'idiv',
-                            'back', 'reduce', 'copy'):
+                            'back', 'reduce', 'copy', 'setcopy'):
                     arith_ok = True
             else:
                 status = 'out=' + ' out2='.join(dense_str(v) for v in res)
@@ -718,14 +918,19 @@ def tok_close(a, b):
     ka, va = a.split('=', 1); kb, vb = b.split('=', 1)
     if ka != kb: return False
     try:
+        # tolerance relative to the scale of the whole vector (cancellation leaves residues of that size)
         if ka in NUMERIC_LIST:
             xa, xb = va.split(','), vb.split(',')
-            return len(xa) == len(xb) and all(close(parse_num(p), parse_num(q)) for p, q in zip(xa, xb))
+            if len(xa) != len(xb): return False
+            fa, fb = [parse_num(p) for p in xa], [parse_num(q) for q in xb]
+            scale = max([0.0] + [abs(x) for x in fa] + [abs(x) for x in fb])
+            return all(close(p, q, atol=1e-12 + 1e-9 * scale) for p, q in zip(fa, fb))
         if ka == 'v' or (ka.startswith('v') and ka[1:].isdigit()):
             def d(s):
                 return {} if s == '-' else {int(i): parse_num(x) for i, x in (it.split(':') for it in s.split(';'))}
             da, db = d(va), d(vb)
-            return all(close(da.get(k, 0.0), db.get(k, 0.0)) for k in set(da) | set(db))
+            scale = max([0.0] + [abs(x) for x in da.values()] + [abs(x) for x in db.values()])
+            return all(close(da.get(k, 0.0), db.get(k, 0.0), atol=1e-12 + 1e-9 * scale) for k in set(da) | set(db))
     except (ValueError, ZeroDivisionError):
         return False
     return False
@@ -737,6 +942,15 @@ def compare(impl_line, model_line):
     if mode == 'E|': return False
     ta, tb = rest.split(' '), model_line.split(' ')
     return len(ta) == len(tb) and all(tok_close(a, b) for a, b in zip(ta, tb))
+
+
+def protect_prefix(case):
+    """the package lines are not subject to shrinking"""
+    n = 0
+    for l in case.ops:
+        if l.startswith('pkg') or l.startswith('alt'): n += 1
+        else: break
+    return n
 
 
 def disagree_signature(case, res, first):
@@ -788,8 +1002,8 @@ def gen_new(rng, ph, c, friendly, basis, flip=False):
                                    ';'.join('%d:%s' % (i, frac(v)) for i, v in flat))
 
 
-def gen_feed(rng, ph, hot=()):
-    L = (ph or 1) * N
+def gen_feed(rng, ph, hot=(), n=None):
+    L = (ph or 1) * (n or N)
     f = [rng.randrange(0, 129) / 4.0 if rng.random() < 0.7 else 0.0 for _ in range(L)]
     for h in hot:
         if h < L and f[h] == 0.0: f[h] = rng.randrange(1, 129) / 4.0
@@ -815,17 +1029,19 @@ def gen_k(rng, friendly, for_div):
 
 def gen_op(rng, U, friendly):
     rx = [k for k, o in enumerate(U.objs) if is_rxn(o)]
-    sets = [k for k, o in enumerate(U.objs) if isinstance(o, tmo.ParallelReaction)]
+    sets = [k for k, o in enumerate(U.objs) if is_set(o)]
     if not rx: return None
     kind = rng.choices(
         ['add', 'sub', 'iadd', 'isub', 'addz', 'mul', 'div', 'neg', 'imul', 'idiv', 'copy', 'back', 'setbasis',
-         'setx', 'mkset', 'item', 'setsx', 'reduce', 'apply', 'applys', 'subcancel'],
+         'setx', 'mkset', 'item', 'setsx', 'reduce', 'apply', 'applys', 'subcancel', 'setcopy', 'slice', 'reset',
+         'applys2'],
         [14, 12, 8, 8, 5, 7, 6, 4, 4, 4, 6, 7, 4,
-         4, 6, 10, 5, 8, 10, 4, 5])[0]
+         4, 7, 10, 6, 7, 10, 4, 5, 6, 6, 6, 5])[0]
     a = rng.choice(rx)
     oa = U.objs[a]
     def partner():
-        good = [k for k in rx if nph(U.objs[k]) == nph(oa) and U.objs[k]._reactant_index == oa._reactant_index]
+        good = [k for k in rx if nph(U.objs[k]) == nph(oa) and U.objs[k]._reactant_index == oa._reactant_index
+                and U.objs[k].chemicals is oa.chemicals]
         if good and rng.random() < 0.93: return rng.choice(good)
         return rng.choice(rx)
     if kind in ('add', 'sub', 'iadd', 'isub'):
@@ -850,11 +1066,11 @@ def gen_op(rng, U, friendly):
     if kind == 'back':
         if not obj_clean(U, oa): return None
         f = U.fields(oa)
-        nz = sorted({i % N for i, x in enumerate(f['v'][0]) if x != 0 and i != f['ri'][0]})
+        nz = sorted({i % nch(oa) for i, x in enumerate(f['v'][0]) if x != 0 and i != f['ri'][0]})
         r = rng.random()
         if r < 0.45 or not nz: c = '-'
         elif r < 0.93: c = str(rng.choice(nz))
-        else: c = str(rng.randrange(N))
+        else: c = str(rng.randrange(nch(oa)))
         x = '-' if rng.random() < 0.6 else frac(gen_X(rng, friendly))
         return 'back r%d %s %s' % (a, c, x)
     if kind == 'setbasis':
@@ -862,29 +1078,63 @@ def gen_op(rng, U, friendly):
         return 'setbasis r%d %s' % (tgt, rng.choices(['m', 'w', 'x', '-'], [40, 50, 5, 5])[0])
     if kind == 'setx': return 'setx r%d %s' % (a, frac(gen_X(rng, friendly)))
     if kind == 'mkset':
-        good = [k for k in rx if nph(U.objs[k]) == nph(oa) and (U.objs[k]._basis == oa._basis or rng.random() < 0.05)]
+        good = [k for k in rx if nph(U.objs[k]) == nph(oa) and (U.objs[k]._basis == oa._basis or rng.random() < 0.05)
+                and (U.objs[k].chemicals is oa.chemicals or rng.random() < 0.05)]
         rng.shuffle(good)
         ms = [a] + [k for k in good if k != a][:rng.randrange(1, 4)]
         if rng.random() < 0.04: ms.append(rng.choice(rx))
-        return 'mkset ' + ','.join('r%d' % k for k in ms)
-    if kind in ('item', 'setsx', 'reduce'):
+        return ('mkseries ' if rng.random() < 0.3 else 'mkset ') + ','.join('r%d' % k for k in ms)
+    if kind in ('item', 'setsx', 'reduce', 'setcopy', 'slice'):
         if not sets: return None
         s = rng.choice(sets); n = len(U.objs[s]._X)
         if kind == 'reduce':
+            par = [k for k in sets if isinstance(U.objs[k], tmo.ParallelReaction)]
+            if par and rng.random() < 0.9: s = rng.choice(par)
+            if len(U.objs[s]._X) == 0: return None
             return 'reduce r%d' % s
+        if kind == 'setcopy':
+            return 'setcopy r%d %s' % (s, rng.choices(['-', 'm', 'w', 'x'], [45, 25, 27, 3])[0])
+        if kind == 'slice':
+            if n == 0: return None
+            i = rng.randrange(n); j = rng.randrange(i + 1, n + 2)
+            if rng.random() < 0.04: j = i
+            return 'slice r%d %d %d' % (s, i, j)
+        if n == 0: return None
         i = rng.randrange(n) if rng.random() < 0.97 else n
         if kind == 'item': return 'item r%d %d' % (s, i)
         return 'setsx r%d %d %s' % (s, i, frac(gen_X(rng, friendly)))
     if kind in ('apply', 'applys'):
         tgt = rng.choice(rx + sets)
         o = U.objs[tgt]; ph = nph(o)
-        hot = ([ridx_of(x, ph) for x in o._reactant_index] if isinstance(o, tmo.ParallelReaction)
-               else [ridx_of(o._reactant_index, ph)])
-        return '%s r%d %s' % (kind, tgt, gen_feed(rng, ph, hot))
+        hot = ([ridx_of(x, ph, o) for x in o._reactant_index] if is_set(o)
+               else [ridx_of(o._reactant_index, ph, o)])
+        return '%s r%d %s' % (kind, tgt, gen_feed(rng, ph, hot, nch(o)))
+    if kind == 'reset':
+        # (a rounding residue on a chemical the other package lacks would raise where the exact model does not)
+        plain = [k for k in rx if not is_item(U.objs[k]) and obj_clean(U, U.objs[k])]
+        if not plain: return None
+        k = rng.choice(plain)
+        cur = pkg_no(U.objs[k])
+        tgt = rng.choice([q for q in range(len(PKGS)) if q != cur] if rng.random() < 0.9 else [cur])
+        return 'reset r%d %d' % (k, tgt)
+    if kind == 'applys2':
+        plain = [k for k in rx if not is_item(U.objs[k])]
+        if not plain: return None
+        k = rng.choice(plain); o = U.objs[k]; ph = nph(o)
+        pq = rng.randrange(len(PKGS))
+        if PKGS[pq] is not o.chemicals and not obj_clean(U, o): pq = pkg_no(o)
+        names = PKGS[pq].IDs
+        own = set(o.chemicals.IDs)
+        feed = []
+        for r in range(ph or 1):
+            for name in names:
+                ok = name in own or rng.random() < 0.03
+                feed.append(rng.randrange(1, 129) / 4.0 if ok and rng.random() < 0.7 else 0.0)
+        return 'applys2 r%d %d %s' % (k, pq, ','.join(frac(x) for x in feed))
     if kind == 'subcancel':
         b = partner(); ob = U.objs[b]
         if float(oa.X) == 0.0 or float(oa.X) + float(ob.X) == 0.0: return None
-        return 'subcancel r%d r%d %s' % (a, b, gen_feed(rng, nph(oa), [ridx_of(oa._reactant_index, nph(oa))]))
+        return 'subcancel r%d r%d %s' % (a, b, gen_feed(rng, nph(oa), [ridx_of(oa._reactant_index, nph(oa), oa)], nch(oa)))
     return None
 
 
@@ -895,7 +1145,7 @@ def reduce_safe(U, line):
     ph = nph(s)
     sums = {}
     for ri, x in zip(s._reactant_index, s._X):
-        k = ridx_of(ri, ph)
+        k = ridx_of(ri, ph, s)
         if k in sums:
             if float(x) != 0.0:
                 sums[k] += float(x)
@@ -910,7 +1160,7 @@ def gen_case(rng, length):
     ops = []
     def do(line):
         ops.append(line)
-        if line.startswith('pkg'):
+        if line.startswith('pkg') or line.startswith('alt'):
             U.ready = True; return True
         try:
             kind, res, _ = U.run(line)
@@ -924,7 +1174,7 @@ def gen_case(rng, length):
                 U.objs.append(res)
                 if t0 == 'item': U.parent[len(U.objs) - 1] = (int(line.split(' ')[1][1:]), int(line.split(' ')[2]))
         return True
-    do(pkg_line())
+    for l in prelude(): do(l)
     friendly = rng.random() < 0.45
     ph = rng.choice([0, 0, 0, 3, 3])
     c = rng.randrange(N)
@@ -949,12 +1199,74 @@ def gen_case(rng, length):
     return Case(ops, {})
 
 
+def gen_case_item_mixed(rng, length):
+    """a Reaction on one basis combined with ReactionItems of a set kept on the other basis (adaptive)"""
+    U = Universe()
+    ops = []
+    def do(line):
+        ops.append(line)
+        if line.startswith('pkg') or line.startswith('alt'):
+            U.ready = True; return True
+        try:
+            kind, res, _ = U.run(line)
+        except BadCase:
+            raise
+        except Exception:
+            return False
+        if kind == 'ret' and (line.split(' ')[0] in NON_INPLACE or U.index_of(res) is None):
+            U.objs.append(res)
+        return True
+    for l in prelude(): do(l)
+    friendly = rng.random() < 0.3
+    ph = rng.choice([0, 0, 3])
+    c = rng.randrange(N)
+    b1, b2 = rng.choice([('m', 'w'), ('w', 'm')])
+    do(gen_new(rng, ph, c, friendly, b1))
+    nset = rng.randrange(2, 4)
+    for _ in range(nset): do(gen_new(rng, ph, c, friendly, b2))
+    if len(U.objs) != nset + 1: return Case(ops, {})
+    do(('mkseries ' if rng.random() < 0.3 else 'mkset ') + ','.join('r%d' % k for k in range(1, nset + 1)))
+    sid = nset + 1
+    items = []
+    for i in range(nset):
+        if rng.random() < 0.8 or (i == nset - 1 and not items):
+            do('item r%d %d' % (sid, i)); items.append(len(U.objs) - 1)
+    hot = [ridx_of(U.objs[0]._reactant_index, ph, U.objs[0])]
+    def xsum_zero(p, q, sign):
+        return float(U.objs[p].X) + sign * float(U.objs[q].X) == 0.0
+    n = 0
+    for _ in range(4 * length):
+        if n >= length: break
+        it = rng.choice(items)
+        rx = [k for k, o in enumerate(U.objs) if is_rxn(o)]
+        kind = rng.choices(['add', 'add2', 'sub', 'sub2', 'iadd', 'isub', 'iadd2', 'applys', 'setsx', 'setx', 'subcancel', 'copy'],
+                           [5, 5, 3, 3, 4, 3, 3, 4, 3, 2, 2, 2])[0]
+        line = None
+        if kind == 'add' and not xsum_zero(0, it, 1): line = 'add r0 r%d' % it
+        elif kind == 'add2' and not xsum_zero(it, 0, 1): line = 'add r%d r0' % it
+        elif kind == 'sub' and not xsum_zero(0, it, -1): line = 'sub r0 r%d' % it
+        elif kind == 'sub2' and not xsum_zero(it, 0, -1): line = 'sub r%d r0' % it
+        elif kind == 'iadd' and not xsum_zero(it, 0, 1): line = 'iadd r%d r0' % it
+        elif kind == 'isub' and not xsum_zero(it, 0, -1): line = 'isub r%d r0' % it
+        elif kind == 'iadd2' and not xsum_zero(0, it, 1): line = 'iadd r0 r%d' % it
+        elif kind == 'applys': line = 'applys r%d %s' % (rng.choice(rx + [sid]), gen_feed(rng, ph, hot))
+        elif kind == 'setsx': line = 'setsx r%d %d %s' % (sid, rng.randrange(nset), frac(gen_X(rng, friendly) or 0.5))
+        elif kind == 'setx': line = 'setx r%d %s' % (it, frac(gen_X(rng, friendly) or 0.25))
+        elif kind == 'subcancel' and float(U.objs[0].X) != 0.0 and not xsum_zero(0, it, 1):
+            line = 'subcancel r0 r%d %s' % (it, gen_feed(rng, ph, hot))
+        elif kind == 'copy': line = 'copy r%d %s' % (it, rng.choice(['-', 'm', 'w']))
+        if line is None: continue
+        do(line); n += 1
+    return Case(ops, {})
+
+
 def generate(rng, tier, index, nworkers):
     b = budget(tier)
     n = max(1, b['cases'] // nworkers)
     for j in range(n):
         r = rng.random()
-        if r < 0.5: yield gen_case(rng, rng.randrange(3, 9))
+        if r < 0.1: yield gen_case_item_mixed(rng, rng.randrange(4, 14))
+        elif r < 0.5: yield gen_case(rng, rng.randrange(3, 9))
         elif r < 0.9: yield gen_case(rng, rng.randrange(8, 20))
         else: yield gen_case(rng, 30)
 
@@ -988,7 +1300,7 @@ def search(case, rng, budget_s):
         ops = list(case.ops)
         try:
             for l in ops:
-                if l.startswith('pkg'): U.ready = True; continue
+                if l.startswith('pkg') or l.startswith('alt'): U.ready = True; continue
                 try:
                     kind, res, _ = U.run(l)
                 except BadCase:
